@@ -449,17 +449,17 @@ def sortByNum (num : ObjId → Int) (l : List ObjId) : List ObjId := l.foldr (in
 def setAdd (eq : ObjId → ObjId → Bool) (acc : List ObjId) (o : ObjId) : List ObjId :=
   if acc.any (fun x => eq o x) then acc else acc ++ [o]
 
+/-- `for cell in cells: the_set.update(items(cell))` starting from the set `acc` -/
+def collect (eq : ObjId → ObjId → Bool) (items : ObjId → List ObjId) (cells acc : List ObjId) : List ObjId :=
+  cells.foldl (fun acc c => (items c).foldl (setAdd eq) acc) acc
+
 /-- mcnp_problem.py:add_cell_children_to_problem (repaired code: the three collections are built first,
-    linked to the problem, every member is linked; a numbering conflict changes nothing) -/
+    linked to the problem, every member is linked; a numbering conflict changes nothing).  Surfaces come from
+    `cell.surfaces`, transforms from the `transform` of those surfaces, materials from `cell.material`. -/
 def addCellChildren (st : St) : Res :=
-  let surfSet := st.cells.foldl (fun acc c => (st.cellOf c).surfs.foldl (setAdd (surfEq st)) acc) st.surfaces
-  let transSet := st.cells.foldl (fun acc c =>
-      (st.cellOf c).surfs.foldl (fun a s => match st.strans s with
-        | some t => setAdd (fun x y => x == y) a t
-        | none => a) acc) st.transforms
-  let matSet := st.cells.foldl (fun acc c => match (st.cellOf c).mat with
-      | some m => setAdd (matEq st) acc m
-      | none => acc) st.materials
+  let surfSet := collect (surfEq st) (fun c => (st.cellOf c).surfs) st.cells st.surfaces
+  let transSet := collect (fun x y => x == y) (fun c => (st.cellOf c).surfs.filterMap st.strans) st.cells st.transforms
+  let matSet := collect (matEq st) (fun c => (st.cellOf c).mat.toList) st.cells st.materials
   if ¬ (surfSet.map st.snum).Nodup ∨ ¬ (matSet.map st.mnum).Nodup ∨ ¬ (transSet.map st.tnum).Nodup then
     (st, some .numberConflict)
   else
